@@ -212,7 +212,7 @@ var c16Formats = []string{"srt", "vtt", "ttml", "ssa", "stl25", "stl30"}
 func runBatch(t fataler, format string, instants []int64) {
 	c := c16Case{Format: format, Instants: instants}
 	ev.CaseH(true, mix(strHash(format), uint64(instants[0]), uint64(len(instants)), uint64(instants[len(instants)-1])), "format-"+format)
-	ev.Label("instants")
+	ev.AddEvals(len(instants) - 1) // every instant of the batch is an evaluated input; distinct counts batches (conservative)
 	msg := guarded(func() string { return checkC16(c) })
 	if msg == "" {
 		return
